@@ -703,3 +703,133 @@ func App(f string) func(args []string) (string, error) {
 		return "(" + f + " " + strings.Join(args, " ") + ")", nil
 	}
 }
+
+// Desugar rewrites (copying, never mutating the parsed tree) two constructs into the translator's
+// subset: a tagless `switch { case c1: A; case c2: B; default: D }` without fallthrough/break becomes
+// `if c1 { A } else if c2 { B } else { D }`, and a bare `return` (function with ONE named result that
+// is never assigned) becomes `return <zero>`. Anything else is passed through unchanged; the caller
+// must have checked the "never assigned" side condition (see NamedResultNeverAssigned).
+func Desugar(list []ast.Stmt, zero ast.Expr) ([]ast.Stmt, error) {
+	var out []ast.Stmt
+	for _, s := range list {
+		d, err := desugarStmt(s, zero)
+		if err != nil {
+			return nil, err
+		}
+		out = append(out, d)
+	}
+	return out, nil
+}
+
+func desugarBlock(b *ast.BlockStmt, zero ast.Expr) (*ast.BlockStmt, error) {
+	if b == nil {
+		return nil, nil
+	}
+	l, err := Desugar(b.List, zero)
+	if err != nil {
+		return nil, err
+	}
+	return &ast.BlockStmt{List: l}, nil
+}
+
+func desugarStmt(s ast.Stmt, zero ast.Expr) (ast.Stmt, error) {
+	switch v := s.(type) {
+	case *ast.ReturnStmt:
+		if len(v.Results) == 0 {
+			return &ast.ReturnStmt{Results: []ast.Expr{zero}}, nil
+		}
+		return v, nil
+	case *ast.IfStmt:
+		body, err := desugarBlock(v.Body, zero)
+		if err != nil {
+			return nil, err
+		}
+		n := &ast.IfStmt{Init: v.Init, Cond: v.Cond, Body: body}
+		if v.Else != nil {
+			e, err := desugarStmt(v.Else, zero)
+			if err != nil {
+				return nil, err
+			}
+			n.Else = e
+		}
+		return n, nil
+	case *ast.BlockStmt:
+		return desugarBlock(v, zero)
+	case *ast.SwitchStmt:
+		if v.Tag != nil || v.Init != nil {
+			return nil, fmt.Errorf("switch with tag/init outside subset")
+		}
+		var first, last *ast.IfStmt
+		var deflt *ast.BlockStmt
+		for _, c := range v.Body.List {
+			cc := c.(*ast.CaseClause)
+			for _, b := range cc.Body {
+				if br, ok := b.(*ast.BranchStmt); ok {
+					return nil, fmt.Errorf("switch with %s outside subset", br.Tok)
+				}
+			}
+			body, err := Desugar(cc.Body, zero)
+			if err != nil {
+				return nil, err
+			}
+			if cc.List == nil {
+				deflt = &ast.BlockStmt{List: body}
+				continue
+			}
+			cond := cc.List[0]
+			for _, more := range cc.List[1:] {
+				cond = &ast.BinaryExpr{X: cond, Op: token.LOR, Y: more}
+			}
+			n := &ast.IfStmt{Cond: cond, Body: &ast.BlockStmt{List: body}}
+			if first == nil {
+				first = n
+			} else {
+				last.Else = n
+			}
+			last = n
+		}
+		if first == nil {
+			if deflt != nil {
+				return deflt, nil
+			}
+			return &ast.BlockStmt{}, nil
+		}
+		if deflt != nil {
+			last.Else = deflt
+		}
+		return first, nil
+	}
+	return s, nil
+}
+
+// NamedResultNeverAssigned reports whether fd has exactly one named result and no statement in its
+// body assigns to it (so that a bare `return` returns the type's zero value).
+func NamedResultNeverAssigned(fd *ast.FuncDecl) (string, bool) {
+	if fd.Type.Results == nil || len(fd.Type.Results.List) != 1 || len(fd.Type.Results.List[0].Names) != 1 {
+		return "", false
+	}
+	name := fd.Type.Results.List[0].Names[0].Name
+	ok := true
+	ast.Inspect(fd.Body, func(n ast.Node) bool {
+		switch a := n.(type) {
+		case *ast.AssignStmt:
+			for _, l := range a.Lhs {
+				if id, isId := l.(*ast.Ident); isId && id.Name == name {
+					ok = false
+				}
+			}
+		case *ast.IncDecStmt:
+			if id, isId := a.X.(*ast.Ident); isId && id.Name == name {
+				ok = false
+			}
+		case *ast.UnaryExpr:
+			if a.Op == token.AND {
+				if id, isId := a.X.(*ast.Ident); isId && id.Name == name {
+					ok = false
+				}
+			}
+		}
+		return true
+	})
+	return name, ok
+}
